@@ -197,6 +197,7 @@ type connResult struct {
 //	sw=N            SetBodyStreamWriter writing N bytes in 3 pieces
 //	te=1            ctx.TimeoutError("timed out!") then keep mutating
 //	uv=1            set a user value (must not be visible to the next request)
+//	hdr=K:V ck=k:v sm=MSG app=TEXT raw=TEXT skip=1   further response-building calls (C03)
 func runConn(cfg connCfg, chunks [][]byte) *connResult {
 	return newConnServer(cfg).run(chunks)
 }
@@ -337,6 +338,31 @@ func newConnServer(cfg connCfg) *connServer {
 				w.Write(part[n/3 : 2*n/3])
 				w.Write(part[2*n/3:])
 			})
+		}
+		for _, hv := range q.PeekMulti("hdr") { // hdr=Name:Value (repeatable): Response.Header.Add
+			if k, v, ok := bytes.Cut(hv, []byte(":")); ok {
+				ctx.Response.Header.AddBytesKV(k, v)
+			}
+		}
+		for _, hv := range q.PeekMulti("ck") { // ck=name:value: Set-Cookie
+			if k, v, ok := bytes.Cut(hv, []byte(":")); ok {
+				var c fasthttp.Cookie
+				c.SetKeyBytes(k)
+				c.SetValueBytes(v)
+				ctx.Response.Header.SetCookie(&c)
+			}
+		}
+		if m := q.Peek("sm"); m != nil {
+			ctx.Response.Header.SetStatusMessage(m)
+		}
+		if b := q.Peek("app"); b != nil {
+			ctx.Response.AppendBody(b)
+		}
+		if b := q.Peek("raw"); b != nil {
+			ctx.Response.SetBodyRaw(append([]byte(nil), b...))
+		}
+		if q.Has("skip") {
+			ctx.Response.SkipBody = true
 		}
 		if q.Has("close") {
 			ctx.SetConnectionClose()
